@@ -1,4 +1,6 @@
 """Run-based monitors C01 (box), C02 (true fitness / immutable history), C03 (accounting), C04 (best)."""
+from collections import Counter
+
 import numpy as np
 
 from ..harness import canon, gen_digest
@@ -223,6 +225,12 @@ class C02Truth(Monitor):
     def _final(self, tree):
         if tree is not None:
             self._scan(tree)
+        if self.ctx.desc.get("obj", {}).get("fam") in ("intpen", "intval", "f32"):
+            kinds = Counter(type(e[2]).__name__ for e in self.ctx.log)
+            for k_, n_ in kinds.items():
+                self.cov(f"objective_returned_a_value_of_type.{k_}", n_)
+            if len(kinds) >= 2:
+                self.cov("runs_on_an_objective_with_mixed_return_types")
         res = self.ctx.result
         if res is not None:
             self.cov("minimize_result_checked")
